@@ -197,12 +197,20 @@ def run(program, rep, tier):
             return [True] * sc[0] + [False] * sc[1]
         if t in ('self.maps', 'self.maps.keys()'):
             return [True] * sc[2] + [False] * sc[3]
+        if t == 'self.handles.maps':
+            # the layers: every name in the first one, sc[4] identifier names
+            # shadowed in a second one
+            return [[True] * sc[0] + [False] * sc[1], [True] * sc[4]]
         if isinstance(n, ast.Call):
             d = dotted(n.func) or ''
             if d.split('.')[-1] == 'chain' and not n.keywords:
                 out = []
                 for a in n.args:
-                    out += list(_ev(a, sc, env))
+                    if isinstance(a, ast.Starred):
+                        for part in _ev(a.value, sc, env):
+                            out += list(part)
+                    else:
+                        out += list(_ev(a, sc, env))
                 return out
             if d in ('tuple', 'list', 'set', 'frozenset', 'sorted') \
                     and len(n.args) == 1:
@@ -268,13 +276,17 @@ def run(program, rep, tier):
                                 else [dec.body]) for x in ast.walk(b))
         try:
             import itertools as _it
-            for sc in _it.product((0, 1, 2), repeat=4):
+            for sc in _it.product((0, 1, 2), repeat=5):
+                if sc[4] > sc[0]:
+                    continue
                 got = bool(_ev(dec.test, sc, {}))
                 has_dict = got if in_body else not got
                 need = sc[1] + sc[3] > 0
                 if need and not has_dict:
                     ok_d = False
-                    why = (f'with {sc[0]}+{sc[1]} handle names and '
+                    why = (f'with {sc[0]}+{sc[1]} handle names' + (
+                               f' ({sc[4]} of them shadowed in a second '
+                               'layer)' if sc[4] else '') + ' and '
                            f'{sc[2]}+{sc[3]} sub-map names (identifiers + '
                            'others) the snapshot class gets no __dict__ '
                            'although a name is not an identifier: '
